@@ -35,7 +35,7 @@ def place_term(fl, p, depth):
             elif base[0] == 'adt' and name in base[3]:
                 base = base[4][base[3].index(name)]
             elif base[0] == 'payload':
-                base = base[1] if name == '0' else ('field', base, name)
+                base = ('vfield', base[1], base[2], name)
             else:
                 base = ('field', base, name)
         elif 'idx' in e:
@@ -99,6 +99,11 @@ def local_term(fl, l, depth):
 
 def strip_payload(t):
     """Look through `x?` / Some/Ok payloads."""
-    while isinstance(t, tuple) and t and t[0] == 'payload':
-        t = t[1]
+    while isinstance(t, tuple) and t:
+        if t[0] == 'payload':
+            t = t[1]
+        elif t[0] == 'vfield' and t[2] in ('Continue', 'Some', 'Ok', 'Ready') and t[3] == '0':
+            t = t[1]
+        else:
+            break
     return t
